@@ -26,6 +26,16 @@ theorem applyEdit_events_off (root : T) (recv : Path) (f : List T → Option Edi
     · exact finish_events_off _ _
   · rfl
 
+theorem applyKeyEdit_events_off (root : T) (recv : Path)
+    (f : List (Key × T) → Option (List (Key × T) × List (Key × Option T × Option T))) :
+    (applyKeyEdit root recv false f).events = [] := by
+  unfold applyKeyEdit
+  split
+  · split
+    · rfl
+    · exact finish_events_off _ _
+  · rfl
+
 theorem fresh_getAt : (p : Path) → (root t : T) → Fresh root → getAt root p = some t → Fresh t
   | [], root, t, h, hg => by simp only [getAt, Option.some.injEq] at hg; subst hg; exact h
   | k :: rest, .leaf a, t, h, hg => by simp [getAt, child] at hg
@@ -65,6 +75,23 @@ theorem applyEdit_fresh (root : T) (recv : Path) (n : Bool) (f : List T → Opti
       refine finish_fresh' _ _ _ ?_
       exact mapAt_resetChain_fresh (setVals e.vals) (fun _ => rfl)
         (fun m kd its _ => ⟨indexed e.vals, rfl, freshItems_indexed e.vals hv⟩) recv root hf
+  · exact hf
+
+theorem applyKeyEdit_fresh (root : T) (recv : Path) (n : Bool)
+    (f : List (Key × T) → Option (List (Key × T) × List (Key × Option T × Option T))) (hf : Fresh root)
+    (hed : ∀ items r, FreshItems items → f items = some r → FreshItems r.1) :
+    Fresh (applyKeyEdit root recv n f).tree := by
+  unfold applyKeyEdit
+  split
+  · next m items hg =>
+    split
+    · exact hf
+    · next items' ents he =>
+      have hnode := fresh_getAt recv root _ hf hg
+      simp only [Fresh] at hnode
+      have hv := hed items (items', ents) hnode.2 he
+      refine finish_fresh' _ _ _ ?_
+      exact mapAt_resetChain_fresh _ (fun _ => rfl) (fun m kd its _ => ⟨items', rfl, hv⟩) recv root hf
   · exact hf
 
 /-! ### the new values of each edit are old values or values handed in -/
@@ -152,7 +179,7 @@ theorem editSetSlice_vals (n : Bool) (a b st : Option Int) (vs : List T) (h : ed
 theorem editIMul_vals (k : Int) (h : editIMul k xs = some e) : ∀ y ∈ e.vals, y ∈ xs := by
   simp only [editIMul] at h
   split at h
-  · simp only [Option.some.injEq] at h; subst h; simp
+  · simp only [editClear, Option.some.injEq] at h; subst h; simp
   · simp only [Option.some.injEq] at h; subst h
     intro y hy
     simp only [List.mem_append] at hy
@@ -175,6 +202,34 @@ theorem appendEnts_old : (n : Nat) → (vs : List T) → ∀ x ∈ appendEnts n 
     rcases h with rfl | h
     · rfl
     · exact appendEnts_old (n + 1) vs x h
+
+theorem clearEnts_old : (n : Nat) → (vs : List T) → ∀ x ∈ clearEnts n vs, n ≤ x.1 ∧ x.2.1 = vs[x.1 - n]?
+  | _, [], x, h => by simp [clearEnts] at h
+  | n, v :: vs, x, h => by
+    simp only [clearEnts, List.mem_cons] at h
+    rcases h with rfl | h
+    · simp
+    · obtain ⟨h1, h2⟩ := clearEnts_old (n + 1) vs x h
+      refine ⟨by omega, ?_⟩
+      rw [h2]
+      have : x.1 - n = (x.1 - (n + 1)) + 1 := by omega
+      rw [this]; simp
+
+theorem movedEnts_old (old new : List T) (src : Nat → Nat) :
+    (c : Nat) → ∀ x ∈ movedEnts old new src c, x.2.1 = old[x.1]?
+  | 0, x, h => by simp [movedEnts] at h
+  | c + 1, x, h => by
+    have ih := movedEnts_old old new src c
+    simp only [movedEnts] at h
+    split at h
+    · next o nn ho hn =>
+      split at h
+      · exact ih x h
+      · simp only [List.mem_cons] at h
+        rcases h with rfl | h
+        · exact ho.symm
+        · exact ih x h
+    · exact ih x h
 
 theorem sliceEnts_old (xs : List T) (start size : Nat) (vs : List T) :
     (c : Nat) → ∀ x ∈ sliceEnts xs start size vs c, x.2.1 = none ∨ x.2.1 = xs[x.1]?
